@@ -16,6 +16,8 @@ sub-term is printed as the witness.
 
 from __future__ import annotations
 
+import ast
+
 from typing import Any, Callable
 
 from .model import Func, Model
@@ -1403,6 +1405,15 @@ def evaluate(model: Model, qname: str, mk_ev: Callable[[], Evaluator], types: di
     if self_term is None and self_type is not None:
         self_term = ("var", "self")
         ev.set_type(self_term, self_type)
+    # a parameter with an integer default that the rule does not mention is a COUNTER the routine passes on to itself (`_number_recursions=0`):
+    # it is left free, so that a test on it (`if _number_recursions == 0:` around a check) shows up as a case split the definition does not have
+    a_ = f.node.args
+    pos_ = a_.posonlyargs + a_.args
+    for p_, d_ in list(zip(pos_[len(pos_) - len(a_.defaults):], a_.defaults)) + list(zip(a_.kwonlyargs, a_.kw_defaults)):
+        if p_.arg not in args and isinstance(d_, ast.Constant) and type(d_.value) is int and not rename:
+            v = ("var", p_.arg)
+            ev.set_type(v, "int")
+            args[p_.arg] = v
     paths = ev.run(f, args, self_term) if self_term is not None else ev.run(f, args)
     return f, ev, paths
 
